@@ -30,6 +30,8 @@ fn gen_one(r: &mut Rng, _thorough: bool) -> String {
     }
     let class = r.below(4);
     let call = *r.pick(match class { 0 => CALLS_R_BUF, 1 => CALLS_W_BUF, 2 => CALLS_R_VEC, _ => CALLS_W_VEC });
+    // receive calls also with MSG_WAITALL (`:w`): flags are the caller's business, the layers must pass them through
+    let call = if (call == "recv" || call == "recvmsg") && r.chance(1, 2) { if call == "recv" { "recv:w" } else { "recvmsg:w" } } else { call };
     let blocking = if r.chance(3, 4) { 1 } else { 0 };
     let limit_us = *r.pick(&[0u64, 0, 0, 1, 500, 9_999, 10_000, 10_001, 25_000, 1_000_000]);
     let nseg = if class < 2 { 1 } else { r.range(1, 5) };
@@ -196,7 +198,7 @@ fn exec_one(body: &str, sv: [c_int; 2], emit: &mut dyn FnMut(&str)) {
     if parts.len() != 3 { emit("BADCASE"); return; }
     let head: Vec<&str> = parts[0].split_whitespace().collect();
     if head.len() != 4 { emit("BADCASE"); return; }
-    let call = head[0];
+    let (call, recv_flags) = match head[0].split_once(':') { Some((c, "w")) => (c, libc::MSG_WAITALL), _ => (head[0], 0) };
     let blocking = head[1] == "1";
     let limit_us: i64 = head[2].parse().unwrap();
     let shape: Vec<usize> = head[3].split('+').map(|s| s.parse().unwrap()).collect();
@@ -247,7 +249,7 @@ fn exec_one(body: &str, sv: [c_int; 2], emit: &mut dyn FnMut(&str)) {
                 addr.sun_family = libc::AF_UNIX as u16;
                 sc::connect(Some(&f), fd, (&addr as *const libc::sockaddr_un).cast(), std::mem::size_of::<libc::sockaddr_un>() as u32) as ssize_t
             }
-            "recv" => { let f: extern "C" fn(c_int, *mut c_void, size_t, c_int) -> ssize_t = k_recv; sc::recv(Some(&f), fd, b0 as *mut c_void, l0, 0) }
+            "recv" => { let f: extern "C" fn(c_int, *mut c_void, size_t, c_int) -> ssize_t = k_recv; sc::recv(Some(&f), fd, b0 as *mut c_void, l0, recv_flags) }
             "read" => { let f: extern "C" fn(c_int, *mut c_void, size_t) -> ssize_t = k_read; sc::read(Some(&f), fd, b0 as *mut c_void, l0) }
             "recvfrom" => { let f: extern "C" fn(c_int, *mut c_void, size_t, c_int, *mut sockaddr, *mut socklen_t) -> ssize_t = k_recvfrom; sc::recvfrom(Some(&f), fd, b0 as *mut c_void, l0, 0, std::ptr::null_mut(), std::ptr::null_mut()) }
             "pread" => { let f: extern "C" fn(c_int, *mut c_void, size_t, off_t) -> ssize_t = k_pread; sc::pread(Some(&f), fd, b0 as *mut c_void, l0, 0) }
@@ -259,7 +261,7 @@ fn exec_one(body: &str, sv: [c_int; 2], emit: &mut dyn FnMut(&str)) {
             "preadv" => { let f: extern "C" fn(c_int, *const iovec, c_int, off_t) -> ssize_t = k_preadv; sc::preadv(Some(&f), fd, iovs.as_ptr(), iovs.len() as c_int, 0) }
             "writev" => { let f: extern "C" fn(c_int, *const iovec, c_int) -> ssize_t = k_writev; sc::writev(Some(&f), fd, iovs.as_ptr(), iovs.len() as c_int) }
             "pwritev" => { let f: extern "C" fn(c_int, *const iovec, c_int, off_t) -> ssize_t = k_pwritev; sc::pwritev(Some(&f), fd, iovs.as_ptr(), iovs.len() as c_int, 0) }
-            "recvmsg" => { let f: extern "C" fn(c_int, *mut msghdr, c_int) -> ssize_t = k_recvmsg; sc::recvmsg(Some(&f), fd, &mut mh, 0) }
+            "recvmsg" => { let f: extern "C" fn(c_int, *mut msghdr, c_int) -> ssize_t = k_recvmsg; sc::recvmsg(Some(&f), fd, &mut mh, recv_flags) }
             "sendmsg" => { let f: extern "C" fn(c_int, *const msghdr, c_int) -> ssize_t = k_sendmsg; sc::sendmsg(Some(&f), fd, &mh, 0) }
             _ => { emit("BADCALL"); return; }
         };
